@@ -102,6 +102,7 @@ func (it *Iterator) Next() {
 
 retry:
 	it.valid = true
+	verifYield(vpIterNext, unsafe.Pointer(it.s))
 	next, deleted := it.curr.getNext(0)
 	if deleted {
 		// Current node is deleted. Unlink current node from the level
@@ -146,6 +147,7 @@ func (it *Iterator) Refresh() {
 		currBs := it.bs
 		itm := it.Get()
 		it.bs = it.s.barrier.Acquire()
+		verifYield(vpIterRefresh, unsafe.Pointer(it.s))
 		it.Seek(itm)
 		it.s.barrier.Release(currBs)
 	}
